@@ -35,6 +35,13 @@ GARBAGE_STMT = ['x(y){d:e}', '(y){d:e}', '[y]{d:e}', '$ {a:b}', 'a,,b{c:d}', 'a{
                 '@x \\7b ;', '@x \\7d  y;', '\\7b  x;', '$ \\28 {a:b}', 'a,,\\7b {c:d}', '@x \\5b  { \\7d  }', '@media \\7b {a{b:c}}']
 
 
+def may_leave(g):
+    """may the damaged construct itself leave an item in the rule list?  An at-rule may (an unknown rule, a valid rule in
+    the wrong place is decided by the caller), a comment does, and the one garbage entry that is a valid style rule.
+    Anything else - selectors without a block, invalid selectors with a block - leaves nothing behind."""
+    return g.startswith(('@', '/*')) or g in ('[y]{d:e}', 'a{{}}')     # (a{{}}: a valid selector, the damage is the declaration)
+
+
 def parse(text):
     import cssutils
     from harness import impl
@@ -74,7 +81,7 @@ def run(ctx):
             ctx.violation('raises', case, '%s: %s' % (type(e).__name__, e), KNOWN_PRED)
             continue
         # the damaged construct itself may leave at most one item (e.g. an unknown rule) at position k
-        ok = got == base or (len(got) == len(base) + 1 and got[:k] == base[:k] and got[k + 1:] == base[k:])
+        ok = got == base or (may_leave(g) and len(got) == len(base) + 1 and got[:k] == base[:k] and got[k + 1:] == base[k:])
         if not ok:
             ctx.violation('statement-containment', case, 'undamaged: %r\ndamaged: %r' % ([r[0] for r in base], [r[0] for r in got]) +
                           '\n' + repr(base)[:600] + '\n' + repr(got)[:600], KNOWN_PRED)
@@ -96,7 +103,7 @@ def run(ctx):
             got = None
         if got is not None:
             ok = len(got) == 2 and got[1] == mbase[1] and got[0][:2] == mbase[0][:2] and (
-                got[0][2] == mbase[0][2] or (len(got[0][2]) == len(mbase[0][2]) + 1 and got[0][2][:k] == mbase[0][2][:k]
+                got[0][2] == mbase[0][2] or (may_leave(g) and len(got[0][2]) == len(mbase[0][2]) + 1 and got[0][2][:k] == mbase[0][2][:k]
                                              and got[0][2][k + 1:] == mbase[0][2][k:]))
             if not ok:
                 ctx.violation('media-block-containment', case, 'expected %r\ngot %r' % (mbase, got), KNOWN_PRED)
@@ -188,7 +195,7 @@ def header_injection(ctx, rng):
             except Exception as e:
                 ctx.violation('raises', case, '%s: %s' % (type(e).__name__, e), KNOWN_PRED)
                 continue
-            sem_ok = got[0] == base[0] or (len(got[0]) == len(base[0]) + 1 and any(got[0][:j] + got[0][j + 1:] == base[0] for j in range(len(got[0]))))
+            sem_ok = got[0] == base[0] or (may_leave(g) and len(got[0]) == len(base[0]) + 1 and any(got[0][:j] + got[0][j + 1:] == base[0] for j in range(len(got[0]))))
             if not sem_ok or got[1:] != base[1:]:
                 ctx.violation('statement-containment', case, 'undamaged: variables %r namespaces %r rule types %r\ndamaged:   variables %r namespaces %r rule types %r' % (
                     base[1], base[2], base[3], got[1], got[2], got[3]), KNOWN_PRED)
